@@ -864,7 +864,18 @@ impl<'a> Gen<'a> {
         }
         // recursion to the frame cap (only with failures on): subroutine calling itself with a counter
         let deep_recursion = self.k.failures && self.k.gosub && self.rng.chance(1, 8);
-        self.push_line(vec![Stmt::End]);
+        if self.k.stop && want_subs == 0 && !deep_recursion && self.rng.chance(1, 4) {
+            // STOP as the very last statement of the program: CONT from there ends the run normally
+            self.stops += 1;
+            if self.rng.chance(1, 2) {
+                self.push_line(vec![Stmt::Stop]);
+            } else {
+                let t = self.tag();
+                self.push_line(vec![t, Stmt::Stop]);
+            }
+        } else {
+            self.push_line(vec![Stmt::End]);
+        }
         self.sub_entries.clear();
         budget = budget.max(3);
         for _ in 0..want_subs {
